@@ -315,8 +315,98 @@ fn cases(tier: Tier) -> Vec<Case> {
     out
 }
 
+/// A second vocabulary: a component with the same short type name in another module, an
+/// unreplicated sparse-set component (archetypes that differ only by it share a table) and
+/// disabled entities. Rules: `Ra` and `other::Ra`. Worlds: two entities, every subset of
+/// {Ra, other::Ra, sparse, Disabled} and the marker on each.
+mod other {
+    use super::*;
+    #[derive(Component, Default, Deserialize, Reflect, Serialize, Clone, PartialEq, Debug)]
+    #[reflect(Component)]
+    pub struct Ra(pub u8);
+}
+#[derive(Component, Default)]
+#[component(storage = "SparseSet")]
+struct Sparse;
+
+fn check_extra(e0: u8, e1: u8) -> Result<u64, (String, String)> {
+    use bevy::ecs::entity_disabling::Disabled;
+    let mut app = App::new();
+    app.init_resource::<Time>().add_plugins(RepliconPlugins);
+    app.register_type::<Ra>().register_type::<other::Ra>();
+    app.replicate::<Ra>().replicate::<other::Ra>();
+    app.finish();
+    app.cleanup();
+    let mut ids = Vec::new();
+    for (i, bits) in [e0, e1].into_iter().enumerate() {
+        let v = 10 * (i as u8 + 1);
+        let mut em = app.world_mut().spawn_empty();
+        if bits & 1 != 0 {
+            em.insert(Replicated);
+        }
+        if bits & 2 != 0 {
+            em.insert(Ra(v + 1));
+        }
+        if bits & 4 != 0 {
+            em.insert(other::Ra(v + 6));
+        }
+        if bits & 8 != 0 {
+            em.insert(Sparse);
+        }
+        if bits & 16 != 0 {
+            em.insert(Disabled);
+        }
+        ids.push(em.id());
+    }
+    let mut scene = DynamicScene::default();
+    if let Err((msg, loc)) = guarded(|| scene::replicate_into(&mut scene, app.world())) {
+        return Err(("panic".into(), format!("replicate_into panicked: {msg} ({})", crate::sim::short_loc(&loc))));
+    }
+    let mut digest = 0u64;
+    for (i, bits) in [e0, e1].into_iter().enumerate() {
+        let found: Vec<_> = scene.entities.iter().filter(|d| d.entity == ids[i]).collect();
+        let want_entity = bits & 1 != 0;
+        if found.len() != want_entity as usize {
+            return Err(("entity-set".into(), format!("entity #{i} (marked: {want_entity}, disabled: {}) appears {} time(s) in the scene", bits & 16 != 0, found.len())));
+        }
+        let Some(d) = found.first() else { continue };
+        let v = 10 * (i as u8 + 1);
+        let ra = d.components.iter().filter(|c| c.try_downcast_ref::<Ra>().is_some_and(|x| x.0 == v + 1)).count();
+        let ora = d.components.iter().filter(|c| c.try_downcast_ref::<other::Ra>().is_some_and(|x| x.0 == v + 6)).count();
+        if ra != (bits & 2 != 0) as usize || ora != (bits & 4 != 0) as usize {
+            return Err((
+                if ra > 1 || ora > 1 { "component-twice".into() } else { "component-missing".into() },
+                format!("entity #{i}: Ra exported {ra} time(s) (has it: {}), other::Ra exported {ora} time(s) (has it: {})", bits & 2 != 0, bits & 4 != 0),
+            ));
+        }
+        if d.components.len() != ra + ora {
+            return Err(("unreplicated-component".into(), format!("entity #{i}: {} components exported, {} selected", d.components.len(), ra + ora)));
+        }
+        digest = digest * 31 + (ra * 2 + ora * 3 + 1) as u64;
+    }
+    Ok(digest)
+}
+
 pub fn run(tier: Tier, _budget: f64, out: &mut Outcome) -> Result<(), MachineryError> {
     out.rule = RULE.into();
+    // the second vocabulary
+    let extra: Vec<((u8, u8), Result<u64, (String, String)>)> =
+        (0u16..1024).into_par_iter().map(|k| ((k as u8 & 31, (k >> 5) as u8), check_extra(k as u8 & 31, (k >> 5) as u8))).collect();
+    out.evaluations += extra.len() as u64;
+    out.transitions += extra.len() as u64;
+    out.nontrivial += extra.iter().filter(|((a, b), _)| (a & 1 != 0 && a & 6 != 0) || (b & 1 != 0 && b & 6 != 0)).count() as u64;
+    if let Some(((a, b), Err((oracle, detail)))) = extra.iter().find(|(_, r)| r.is_err()) {
+        out.violation_total += extra.iter().filter(|(_, r)| r.is_err()).count() as u64;
+        let dir = std::path::Path::new(&check::verif_root()).join("replays").join("C18");
+        let _ = std::fs::create_dir_all(&dir);
+        let path = dir.join(format!("{:016x}.json", crate::explore::hash_of(&("extra", oracle, a, b))));
+        let doc = json!({"property": "C18", "kind": "scene", "extra": [a, b],
+            "shown": format!("entities with bit sets {a:#07b} / {b:#07b} over [marker, Ra, other::Ra, sparse, Disabled]"),
+            "violation": {"property": "C18", "oracle": oracle, "detail": detail}});
+        std::fs::write(&path, serde_json::to_string_pretty(&doc).unwrap()).unwrap();
+        out.new_violations.push(path);
+    }
+    out.reports.push(json!({"cell": "c18-second-vocabulary", "cases": extra.len(), "exhaustive_within_bound": true}));
     let all = cases(tier);
     let results: Vec<(usize, Result<u64, (String, String)>)> =
         all.par_iter().enumerate().map(|(i, c)| (i, check_case(c))).collect();
@@ -372,6 +462,20 @@ pub fn run(tier: Tier, _budget: f64, out: &mut Outcome) -> Result<(), MachineryE
 }
 
 pub fn replay(doc: &serde_json::Value) -> i32 {
+    if let Some(x) = doc["extra"].as_array() {
+        let (a, b) = (x[0].as_u64().unwrap() as u8, x[1].as_u64().unwrap() as u8);
+        println!("{}", doc["shown"].as_str().unwrap_or(""));
+        return match check_extra(a, b) {
+            Ok(_) => {
+                println!("replay passes: no violation");
+                0
+            }
+            Err((o, d)) => {
+                println!("VIOLATION property=C18 replay=<file> oracle={o} :: {d}");
+                1
+            }
+        };
+    }
     let c = &doc["case"];
     let case = Case {
         rules: c["rules"].as_u64().unwrap() as u16,
